@@ -198,8 +198,7 @@ Qed.
 
 Lemma tc_guard_atoms a b : tc_guard conv bidir always (VAtom a) (VAtom b).
 Proof.
-  right. intros v' Cv Ev v _ Vv. apply (veqb_ordfree v (VAtom a)) in Vv; [|reflexivity]. subst v.
-  exists v'. split; [exact Cv|]. apply Hconv in Cv. destruct v' as [a'| | | | |]; cbn in Ev; try discriminate.
+  right. intros v' Cv Ev. apply Hconv in Cv. destruct v' as [a'| | | | |]; cbn in Ev; try discriminate.
   cbn in Cv. cbn. apply atom_eqb_eq. apply py_eq_same_ty; assumption.
 Qed.
 
